@@ -9,6 +9,13 @@ import random
 from tools import vlib
 from tools.vlib import Outcome, sx
 
+MANIFEST = {
+    "level_text": "Coq theorems (Properties/C20.v, no axioms) about a statement-by-statement Gallina transcription of topological_visit/topological_sort_types and of resolve_build_order, for every graph, request set and hash iteration order: termination, exactly-once, exactly the reachable set, every direct dependency first unless on a common cycle (transitively on acyclic graphs), Kahn Ok iff acyclic and Ok lists valid. The model is tied to /repo on every run by running both on the same graphs under the hash orders the implementation actually used (equal output lists), exhaustively on small graphs.",
+    "design_ref": "DESIGN.md section 5 C20",
+    "level_note": "Trusted: Coq kernel; the hand-written model's tie to the code is differential (bounded); Spec/P20.v boolean oracle unproven; hash orders of DependencyResolver are not observable so only Ok/Err and validity are compared there.",
+    "technique": "Rocq/Coq proof over hand-written model + correspondence check (extracted OCaml vs Rust harness)"
+}
+
 RULE = ("topo: every digraph on <=3 (quick) / <=4 (thorough) labelled nodes incl. self-loops x every non-empty request set, "
         "plus random graphs up to 12 nodes, each evaluated under 3 fresh RandomState keys; kahn: every dependency multiset "
         "drawn from those digraphs plus random multigraphs with duplicate edges. A case is non-trivial when it has at least "
@@ -171,16 +178,16 @@ def prep_kahn(cases):
 
 
 def run(rep):
-    vlib.build_harness()
-    vlib.build_runner()
+    vlib.build_harness("c20")
+    vlib.build_runner("c20")
     rng = random.Random(rep.seed)
     rep.add("topo", eval_topo(topo_cases(rep.tier, rng)))
     rep.add("kahn", eval_kahn(prep_kahn(kahn_cases(rep.tier, rng))))
 
 
 def replay(rep, payload):
-    vlib.build_harness()
-    vlib.build_runner()
+    vlib.build_harness("c20")
+    vlib.build_runner("c20")
     items = payload.get("disagreeing_cases") or [payload]
     for i, it in enumerate(items):
         c = dict(it["case"])
